@@ -473,7 +473,8 @@ func (k Keeper) CollectPerpRevenue(ctx sdk.Context, baseCurrency string) (sdk.De
 	// Send coins to fee collector name
 	if perpFeesForStakersDec.IsAllPositive() {
 		// The distribution module picks from ccvconsumertypes.ConsumerRedistributeName
-		err = k.bankKeeper.SendCoinsFromModuleToModule(ctx, types.ModuleName, ccvconsumertypes.ConsumerRedistributeName, stakerCoins)
+		// the stakers' portion is still held by the perpetual fund address (only the LPs' portion was moved to masterchef)
+		err = k.bankKeeper.SendCoinsFromAccountToModule(ctx, fundAddr, ccvconsumertypes.ConsumerRedistributeName, stakerCoins)
 		if err != nil {
 			return sdk.DecCoins{}, err
 		}
@@ -490,8 +491,8 @@ func (k Keeper) CollectPerpRevenue(ctx sdk.Context, baseCurrency string) (sdk.De
 		providerPortion := ammkeeper.PortionCoins(protocolGasFeeCoins, estakingParams.ProviderStakingRewardsPortion)
 		consumerPortion := protocolGasFeeCoins.Sub(providerPortion...)
 
-		// This will be sent to provider
-		err = k.bankKeeper.SendCoinsFromModuleToModule(ctx, types.ModuleName, ccvconsumertypes.ConsumerToSendToProviderName, providerPortion)
+		// This will be sent to provider (from the perpetual fund address, which still holds the protocol's portion)
+		err = k.bankKeeper.SendCoinsFromAccountToModule(ctx, fundAddr, ccvconsumertypes.ConsumerToSendToProviderName, providerPortion)
 		if err != nil {
 			return sdk.DecCoins{}, err
 		}
@@ -565,7 +566,7 @@ func (k Keeper) CollectDEXRevenue(ctx sdk.Context) (sdk.Coins, sdk.DecCoins, map
 		// Send coins to protocol revenue address
 		if protocolRevenueCoins.IsAllPositive() {
 			providerPortion := ammkeeper.PortionCoins(protocolRevenueCoins, estakingParams.ProviderStakingRewardsPortion)
-			consumerPortion := stakerRevenueCoins.Sub(providerPortion...)
+			consumerPortion := protocolRevenueCoins.Sub(providerPortion...)
 
 			// This will be sent to provider
 			err = k.bankKeeper.SendCoinsFromModuleToModule(ctx, types.ModuleName, ccvconsumertypes.ConsumerToSendToProviderName, providerPortion)
